@@ -546,4 +546,211 @@ theorem storedPages_spec {T : Table} (hD : NoDup T) :
     rw [mem_labelsFrom]
     simp [Stored]
 
+/-! ## the table as a finite map: the two operations of `prepare_sync` -/
+
+/-- the lookup, in flat form (`lookup_eq`: the mirrored loop computes this) -/
+def find (hash : Nat → Nat) (T : Table) (p : Nat) : Option Nat := lookupF T (hash p) p (2 * T.n + 1) 0
+
+/-- `allocate_bucket`, in flat form (`allocLoop_new_eq`) -/
+def alloc (hash : Nat → Nat) (lim : Nat) (T : Table) (p : Nat) : Option Nat :=
+  allocTop T.slots lim (hash p) (2 * T.n + 1) 0 0
+
+inductive Op where
+  /-- a changed, non-empty page: its bucket is known (loaded before) or a fresh one is allocated -/
+  | insert (p : Nat)
+  /-- a cleared page: its known bucket becomes a tombstone -/
+  | remove (p : Nat)
+
+def step (hash : Nat → Nat) (lim : Nat) (T : Table) : Op → Table
+  | .insert p =>
+    match find hash T p with
+    | some _ => T
+    | none =>
+      match alloc hash lim T p with
+      | some b => T.setFull b (hash p) p
+      | none => T
+  | .remove p =>
+    match find hash T p with
+    | some b => free T b
+    | none => T
+
+def run (hash : Nat → Nat) (lim : Nat) (T : Table) (ops : List Op) : Table := ops.foldl (step hash lim) T
+
+theorem option_ext {α : Type} {x y : Option α} (h : ∀ b, x = some b ↔ y = some b) : x = y := by
+  cases x with
+  | none =>
+    cases y with
+    | none => rfl
+    | some b => exact absurd ((h b).mpr rfl) (by simp)
+  | some a => exact ((h a).mp rfl).symm
+
+theorem step_n (hash : Nat → Nat) (lim : Nat) (T : Table) (op : Op) : (step hash lim T op).n = T.n := by
+  cases op with
+  | insert p =>
+    simp only [step]
+    cases find hash T p with
+    | some _ => rfl
+    | none =>
+      cases alloc hash lim T p with
+      | some b => exact setFull_n _ _ _ _
+      | none => rfl
+  | remove p =>
+    simp only [step]
+    cases find hash T p with
+    | some b => exact free_n _ _
+    | none => rfl
+
+theorem step_inv {hash : Nat → Nat} {lim : Nat} {T : Table} (hn : 0 < T.n) (hI : Inv hash T) (hD : NoDup T)
+    (op : Op) : Inv hash (step hash lim T op) ∧ NoDup (step hash lim T op) := by
+  cases op with
+  | insert p =>
+    simp only [step]
+    cases hf : find hash T p with
+    | some _ => exact ⟨hI, hD⟩
+    | none =>
+      cases ha : alloc hash lim T p with
+      | none => exact ⟨hI, hD⟩
+      | some b =>
+        obtain ⟨j, hj, hb, _, hbefore⟩ := allocTop_some ha
+        have hfresh := (lookupF_none_iff hI hD p).mp hf
+        subst hb
+        exact ⟨inv_setFull hI hn hj hbefore, noDup_setFull hD (pos_lt hn) hfresh⟩
+  | remove p =>
+    simp only [step]
+    cases hf : find hash T p with
+    | some b => exact ⟨inv_free hI b, noDup_free hD b⟩
+    | none => exact ⟨hI, hD⟩
+
+theorem run_n (hash : Nat → Nat) (lim : Nat) : ∀ (ops : List Op) (T : Table), (run hash lim T ops).n = T.n := by
+  intro ops
+  induction ops with
+  | nil => intro T; rfl
+  | cons op ops ih => intro T; simp only [run, List.foldl] at ih ⊢; rw [ih, step_n]
+
+theorem run_inv {hash : Nat → Nat} {lim : Nat} : ∀ (ops : List Op) {T : Table}, 0 < T.n → Inv hash T → NoDup T →
+    Inv hash (run hash lim T ops) ∧ NoDup (run hash lim T ops) := by
+  intro ops
+  induction ops with
+  | nil => intro T _ hI hD; exact ⟨hI, hD⟩
+  | cons op ops ih =>
+    intro T hn hI hD
+    obtain ⟨a, b⟩ := step_inv (lim := lim) hn hI hD op
+    simp only [run, List.foldl] at ih ⊢
+    exact ih (by rw [step_n]; exact hn) a b
+
+/-- after a successful insertion the page is found, in the allocated bucket; every other page is
+found exactly where it was (or not at all, as before) -/
+theorem find_step_insert {hash : Nat → Nat} {lim : Nat} {T : Table} (hn : 0 < T.n) (hI : Inv hash T)
+    (hD : NoDup T) (p : Nat) :
+    (find hash T p = none → ∀ b, alloc hash lim T p = some b → find hash (step hash lim T (.insert p)) p = some b) ∧
+    (∀ b, find hash T p = some b → find hash (step hash lim T (.insert p)) p = some b) ∧
+    (∀ q, q ≠ p → find hash (step hash lim T (.insert p)) q = find hash T q) := by
+  obtain ⟨hI', hD'⟩ := step_inv (lim := lim) hn hI hD (.insert p)
+  have hn' := step_n hash lim T (.insert p)
+  refine ⟨?_, ?_, ?_⟩
+  · intro hf b ha
+    unfold find
+    rw [lookupF_iff_stored hI' hD']
+    simp only [step, hf, ha]
+    obtain ⟨j, hj, hb, _, _⟩ := allocTop_some ha
+    have hlt : b < T.n := by rw [hb]; exact pos_lt hn
+    exact (stored_setFull hlt p b).mpr (Or.inl ⟨rfl, rfl⟩)
+  · intro b hf
+    simp only [step, hf]
+  · intro q hq
+    simp only [step]
+    cases hf : find hash T p with
+    | some _ => rfl
+    | none =>
+      cases ha : alloc hash lim T p with
+      | none => rfl
+      | some b =>
+        simp only [step, hf, ha] at hI' hD'
+        obtain ⟨j, hj, hb, hfreeb, _⟩ := allocTop_some ha
+        have hlt : b < T.n := by rw [hb]; exact pos_lt hn
+        apply option_ext
+        intro b'
+        unfold find
+        rw [lookupF_iff_stored hI' hD', lookupF_iff_stored hI hD, stored_setFull hlt]
+        constructor
+        · intro h
+          rcases h with ⟨_, e⟩ | ⟨_, h⟩
+          · exact absurd e hq
+          · exact h
+        · intro h
+          right
+          refine ⟨?_, h⟩
+          intro e
+          rw [e] at h
+          rw [h.1] at hfreeb
+          cases hfreeb
+
+/-- after a removal the page is not found any more; every other page is found exactly as before -/
+theorem find_step_remove {hash : Nat → Nat} {lim : Nat} {T : Table} (hn : 0 < T.n) (hI : Inv hash T)
+    (hD : NoDup T) (p : Nat) :
+    find hash (step hash lim T (.remove p)) p = none ∧
+    (∀ q, q ≠ p → find hash (step hash lim T (.remove p)) q = find hash T q) := by
+  obtain ⟨hI', hD'⟩ := step_inv (lim := lim) hn hI hD (.remove p)
+  cases hf : find hash T p with
+  | none =>
+    simp [step, hf]
+  | some b0 =>
+    simp only [step, hf] at hI' hD' ⊢
+    have hst : Stored T p b0 := (lookupF_iff_stored hI hD p b0).mp hf
+    constructor
+    · unfold find
+      rw [lookupF_none_iff hI' hD']
+      intro b hs
+      obtain ⟨hne, hs⟩ := (stored_free p b).mp hs
+      exact hne (hD b b0 hs.1 hst.1 (by rw [hs.2, hst.2]))
+    · intro q hq
+      apply option_ext
+      intro b'
+      unfold find
+      rw [lookupF_iff_stored hI' hD', lookupF_iff_stored hI hD, stored_free]
+      constructor
+      · intro h; exact h.2
+      · intro h
+        refine ⟨?_, h⟩
+        intro e
+        rw [e] at h
+        exact hq (by rw [← h.2, hst.2])
+
+/-! ## the mirrored functions in terms of the flat ones; the occupancy counter -/
+
+theorem allocate_eq (hash : Nat → Nat) (lim : Nat) (T : Table) (p fuel : Nat) (hf : 2 * T.n + 2 ≤ fuel) :
+    allocate hash lim T p fuel = some ((alloc hash lim T p).map (fun b => (b, T.setFull b (hash p) p))) := by
+  unfold allocate alloc
+  rw [allocLoop_new_eq T.slots lim (hash p) fuel hf]
+  cases allocTop T.slots lim (hash p) (2 * T.slots.length + 1) 0 0 <;> rfl
+
+theorem lookup_eq_find (hash : Nat → Nat) (T : Table) (p fuel : Nat) (hf : 2 * T.n + 2 ≤ fuel) :
+    lookup hash T p fuel = some (find hash T p) := lookup_eq hash T p fuel hf
+
+/-- `occupied_buckets_delta` of `prepare_sync`: `+1` for a page that got a fresh bucket, `-1` for a
+cleared page; the maintained counter stays equal to `MetaMap::full_count` -/
+theorem occupied_step_insert {hash : Nat → Nat} {lim : Nat} {T : Table} (hn : 0 < T.n) (p : Nat) :
+    occupied (step hash lim T (.insert p)) =
+      occupied T + (if find hash T p = none ∧ (alloc hash lim T p).isSome then 1 else 0) := by
+  simp only [step]
+  cases hf : find hash T p with
+  | some _ => simp
+  | none =>
+    cases ha : alloc hash lim T p with
+    | none => simp
+    | some b =>
+      obtain ⟨j, _, hb, hfree, _⟩ := allocTop_some ha
+      have hlt : b < T.n := by rw [hb]; exact pos_lt hn
+      simp [occupied_setFull hlt hfree]
+
+theorem occupied_step_remove {hash : Nat → Nat} {lim : Nat} {T : Table} (p : Nat) :
+    occupied (step hash lim T (.remove p)) + (if (find hash T p).isSome then 1 else 0) = occupied T := by
+  simp only [step]
+  cases hf : find hash T p with
+  | none => simp
+  | some b =>
+    obtain ⟨_, _, _, _, hs, _⟩ := lookupF_sound T (hash p) p _ _ _ hf
+    simp
+    exact occupied_free (by rw [hs]; rfl)
+
 end Nomt.Store.Probe
